@@ -216,7 +216,7 @@ class Ctx:
         return res
 
 
-def validate_events(ctx, module, cfg, events, shards=8, timeout=1800, env=None, heap="3g", resets=None):
+def validate_events(ctx, module, cfg, events, shards=8, timeout=1800, env=None, heap="3g", resets=None, obligations=None):
     """Split `events` into shards (cut only at indices listed in `resets` when given, i.e. at
     trace boundaries), validate the shards in parallel (one single-worker TLC each) and return
     the list of (event_index, why) rejects with indices into `events`."""
@@ -244,6 +244,11 @@ def validate_events(ctx, module, cfg, events, shards=8, timeout=1800, env=None, 
         write_ndjson(path, events[a:b])
         res = ctx.validate_trace(module, cfg, path, b - a, timeout=timeout, env=env, heap=heap)
         os.unlink(path)
+        if obligations is not None:
+            for o in res["emitted"]:
+                if isinstance(o, dict) and o.get("k") == "hash":
+                    o["ref"] = a + o["ref"] - 1 if isinstance(o.get("ref"), int) else o.get("ref")
+                    obligations.append(o)
         return [(a + r["i"] - 1, r["why"]) for r in res["rejects"]]
     with ThreadPoolExecutor(max_workers=shards) as ex:
         parts = list(ex.map(one, range(len(cuts) - 1)))
@@ -377,7 +382,9 @@ def finish(ctx, level="model_checking"):
         cov["samples"] = ["(no sample recorded)"]
     ev = dict(property_id=ctx.prop, tier=ctx.tier, seed=ctx.seed, level=level, coverage=cov,
               assumptions=ctx.assumptions, wall_s=round(time.time() - ctx.t0, 1), violations=len(seenk))
-    os.makedirs(EVID, exist_ok=True)
-    with open(os.path.join(EVID, ctx.prop + ".json"), "w") as f:
+    # X.. = specification coverage beyond the listed properties: evidence kept apart
+    evdir = EVID if not ctx.prop.startswith("X") else os.path.join(VERIF, "evidence_ext")
+    os.makedirs(evdir, exist_ok=True)
+    with open(os.path.join(evdir, ctx.prop + ".json"), "w") as f:
         json.dump(ev, f, indent=1, default=str)
     return rc
